@@ -1417,3 +1417,28 @@ where
         f.debug_struct("BufferedRaftLog").finish()
     }
 }
+
+// Verification hooks (compiled only with `--cfg d_engine_verif`; add-only, no behaviour change).
+// They expose the existing private IO loop and its wake-up handle so that a harness can run the
+// real `batch_processor` on its own task and decide when it is polled.
+#[cfg(d_engine_verif)]
+impl<T> BufferedRaftLog<T>
+where
+    T: TypeConfig,
+{
+    /// The real `batch_processor` loop as a future owned by the caller (instead of `start()`
+    /// spawning it on a dedicated thread). Nothing runs until the caller polls it.
+    pub fn verif_io_loop(
+        this: &Arc<Self>,
+        receiver: mpsc::UnboundedReceiver<IOTask>,
+    ) -> std::pin::Pin<Box<dyn std::future::Future<Output = ()>>> {
+        let weak = Arc::downgrade(this);
+        let idle = this.idle_flush_interval_ms;
+        Box::pin(Self::batch_processor(weak, receiver, idle))
+    }
+
+    /// The `Notify` that `append_entries` signals and the IO loop waits on.
+    pub fn verif_write_notify(&self) -> Arc<Notify> {
+        self.write_notify.clone()
+    }
+}
